@@ -7,6 +7,9 @@ import os
 import vcommon as vc
 
 SPEC = os.path.join(vc.VERIF, "spec", "Tree")
+# TLC evaluates the nested / recursive reference operators on deep Java stacks; with the default
+# thread stack a StackOverflowError was seen once under load (a machinery error, not a verdict)
+os.environ.setdefault("JAVA_TOOL_OPTIONS", "-Xss64m")
 TREE_INV = "TypeOK GhostIsDef ValidExact CacheSound RefCoherent"
 TREE_PROP = "RerootKeeps OutGroupKeeps EdgeObjectStays RaiseKeeps"
 DAG_INV = "TypeOK GhostIsDef ValidExact RootedExact CacheVSound CacheRSound RefCoherent"
@@ -93,8 +96,29 @@ def _design(ck, quick, wd):
             ck.add_model(name, r, "MaxN=%d MaxE=%d EObjs={%s} Forget={}" % (n, e, ",".join(map(str, objs))))
             if r.invariant:
                 ck.violation("design model %s violates %s" % (name, r.invariant), [r.out[-6000:]], tag="model")
+    # copies: several containers, copy / assign, edits and queries on either side
+    def copycfg(path, objs, nodes, bug):
+        with open(path, "w") as f:
+            f.write("SPECIFICATION Spec\nCONSTANTS\n  Objs = {%s}\n  NodesC = {%s}\n  Bug = \"%s\"\n"
+                    "INVARIANTS ValidExact CacheSound\nPROPERTIES CopyIndependent CopyEqual\nCHECK_DEADLOCK FALSE\n" % (
+                        ", ".join(map(str, objs)), ", ".join(map(str, nodes)), bug))
+    for objs, nodes in ([([1, 2], [0, 1])] if quick else [([1, 2], [0, 1]), ([1, 2, 3], [0, 1])]):
+        cfg = os.path.join(wd, "copy_design_%d_%d.cfg" % (len(objs), len(nodes)))
+        copycfg(cfg, objs, nodes, "none")
+        r = vc.model_check(SPEC, "TreeCopy", cfg, coverage=(len(objs) == 2), timeout=6000, heap="12g")
+        name = "TreeCopy/O%dN%d" % (len(objs), len(nodes))
+        ck.add_model(name, r, "Objs=%s NodesC=%s Bug=none" % (objs, nodes))
+        if r.invariant:
+            ck.violation("design model %s violates %s" % (name, r.invariant), [r.out[-6000:]], tag="model")
     # negative control: a design that forgets ONE invalidation must be caught by TLC
     caught = []
+    for bug in ("keepflag", "sharedflag"):
+        cfg = os.path.join(wd, "copy_bug_%s.cfg" % bug)
+        copycfg(cfg, [1, 2], [0, 1], bug)
+        r = vc.tlc(SPEC, "TreeCopy", cfg, workers=4, timeout=900, extra=("-noGenerateSpecTE",))
+        caught.append("TreeCopy/Bug=%s: %s" % (bug, r.invariant))
+        if not r.invariant:
+            raise vc.MachineryError("the copy model with the injected mistake '%s' was NOT rejected by TLC" % bug)
     for mod, name, inv, prop in (("Tree", "SetRoot", TREE_INV, TREE_PROP), ("Dag", "RemoveSon", DAG_INV, DAG_PROP)):
         cfg = os.path.join(wd, "forget_%s.cfg" % mod)
         _cfg(cfg, 3, 2, [1], [name], inv, prop)
@@ -205,12 +229,14 @@ def _run(tier, seed):
         ("tree", "hist", ["--mode", "hist", "--n", 300 if quick else 6000, "--len", 40, "--maxn", 6]),
         ("tree", "hist3", ["--mode", "hist", "--n", 200 if quick else 4000, "--len", 30, "--maxn", 3, "--salt", 7]),   # dense interleavings on <= 3 nodes
         ("tree", "cachewalk", ["--mode", "cachewalk", "--n", 20 if quick else 300]),   # query / one edit of every kind / query
-        ("dag", "digraphs", ["--mode", "digraphs", "--maxn", 4, "--loops", 3]),
+        ("tree", "copies", ["--mode", "copies", "--n", 80 if quick else 2000]),   # copies of the container (independent) and of the observer (views)
+        ("dag", "digraphs", ["--mode", "digraphs", "--maxn", 4, "--loops", 3, "--everyroot", 0 if quick else 1]),
+        ("dag", "dcopies", ["--mode", "dcopies", "--n", 80 if quick else 2000]),
         ("dag", "dhist", ["--mode", "dhist", "--n", 200 if quick else 4000, "--len", 40, "--maxn", 6]),
     ]
     if not quick:   # the same enumerations once more with other labellings / edit orders / operation mixes
         runs += [("tree", "shapes2", ["--mode", "shapes", "--maxn", 7, "--salt", 11]),
-                 ("dag", "digraphs2", ["--mode", "digraphs", "--maxn", 4, "--loops", 3, "--salt", 11])]
+                 ("dag", "digraphs2", ["--mode", "digraphs", "--maxn", 4, "--loops", 3, "--salt", 11, "--everyroot", 1])]
     jobs = []
     for kind, name, args in runs:
         tr = os.path.join(wd, "trace-%s.ndjson" % name)
@@ -249,7 +275,10 @@ def _run(tier, seed):
                "without edge objects) x every new root x all ordered node pairs (paths) x all non-empty node subsets (MRCA); "
                "random trees with 8..12 nodes (sampled pairs / subsets incl. ancestor arguments); random histories of 40 calls "
                "over <= 6 nodes and of 30 calls over <= 3 nodes mixing all edits (valid or not, rooted or un-rooted) and queries; from random valid trees: cache filled by isValid / getSubtreeNodes / "
-               "left empty, then one edit of each of 22 kinds (incl. every refusal), then query; DAGs: every digraph on <= 4 labelled nodes "
+               "left empty, then one edit of each of 25 kinds (incl. every refusal, setOutGroup, removeSons), then query; copies of the container "
+               "(copy construction, assignment also through the graph base class) and of the observer (copy, clone, assignment = views), "
+               "16 random steps on any of up to 3 containers with every other container read back after each step; object-level "
+               "observer queries next to the graph-level ones; DAG rootAt from every orientable digraph; DAGs: every digraph on <= 4 labelled nodes "
                "(with self-loops up to 3 nodes, loop-free on 4), random digraphs and histories on <= 6 nodes; "
                "non-trivial = scenario with at least one edit followed by a query")
     ck.distinct = ck.traces
